@@ -62,3 +62,10 @@ package precision
 //@ lemma roundtrip_never_creates_value: forall t wide :: forall n wide :: 0 <= t && t <= 18 && 0 <= n && n < 9007199254740992 ==> toF8(t, toBal(t, n)) <= n
 //@ lemma roundtrip_exact_when_target_at_least_source: forall t wide :: forall n wide :: 8 <= t && t <= 18 && 0 <= n && n < 9007199254740992 ==> toF8(t, toBal(t, n)) == n
 //@ lemma back_conversion_in_range: forall t wide :: forall n wide :: 0 <= t && t <= 18 && 0 <= n && n < 9007199254740992 ==> 0 <= toF8(t, toBal(t, n))
+
+//@ func Convert
+//@   mode int
+//@   requires n != nil && fromPrecision <= 18 && toPrecision <= 18
+//@   assigns bigval
+//@   ensures result != nil
+//@   ensures [value] bigval(result) == ite(toPrecision >= fromPrecision, old(bigval(n)) * pow10(toPrecision - fromPrecision), old(bigval(n)) / pow10(fromPrecision - toPrecision))
